@@ -51,6 +51,12 @@ impl JSON {
         }
         let mut _line = boxed_line.unwrap();
 
+        // an object without members ("{}", also as the writer lays it out: "{\r\n\r\n}") has no properties
+        let is_opening_curly_brace_read = _line.trim() == "{";
+        let remaining = String::from_utf8_lossy(&data[cursor.position() as usize..]).to_string();
+        if is_opening_curly_brace_read && remaining.trim() == "}" {
+            return Ok(properties);
+        }
 
         let mut is_there_a_key_value = true;
         while is_there_a_key_value {
